@@ -60,6 +60,10 @@ def scenario(draw) -> Dict[str, Any]:
             # a peer that repeats itself: the very same bytes again after a pause (a poller re-sending an identical query, a
             # responder re-announcing), with nothing else in between - and that repeat is duplicated by the link as well
             events.append(dict(ev, same_bytes_as_previous=True, gap=draw(st.sampled_from([999, 1000, 1001, 1500, 3000, 5000]))))
+        elif ev['kind'] == 'query' and draw(st.integers(0, 4)) == 0:
+            # two hosts asking the very same thing (two browsers started together, two stub resolvers with one id): the same bytes
+            # from another source within a second - a query of its own, whose link-layer duplicate must change nothing either
+            events.append(dict(ev, same_bytes_other_source=True, gap=draw(st.sampled_from([0, 1, 200, 900, 999, 1001]))))
     return {'seed': draw(st.integers(0, 10**6)), 'services': draw(st.sampled_from([[0], [0, 1]])),
             'browsers': draw(st.lists(st.lists(st.integers(0, 2), min_size=1, max_size=2, unique=True).map(sorted), min_size=1, max_size=2)),
             'settle_ms': draw(st.sampled_from([1500, 40000])), 'events': events,
@@ -113,6 +117,10 @@ def run_once(case: Dict[str, Any], dup: bool) -> Dict[str, Any]:
             last = w.now_ms
             if ev.get('same_bytes_as_previous') and injected:
                 data, src, has_qu = prev
+            elif ev.get('same_bytes_other_source') and injected:
+                data, _, has_qu = prev
+                oc = 1 - ev['client']
+                src = ('fe80::%x' % (0x77 + oc), ev['port'], 0, 2) if v6 else ('10.0.0.%d' % (77 + oc), ev['port'])
             elif ev['kind'] == 'query':
                 qs = [_qname(q, case['services']) for q in ev['qs']]
                 auth = [rp.wire_rr_of_ident(('PTR', TYPES[0], 'cand.' + TYPES[0]), 4500)] if ev['probe'] else []
@@ -294,5 +302,7 @@ def check(case: Dict[str, Any]) -> Dict[str, Any]:
         classes.append('excluded-known-F10')
     if any(ev['kind'] == 'query' and ev['tc'] for ev in case['events']):
         classes.append('tc-query')
+    if any(ev.get('same_bytes_other_source') for ev in case['events']):
+        classes.append('same-query-bytes-from-a-second-source')
     return {'nontrivial': effect, 'classes': classes, 'excluded': {'F10-qu-duplicate-multicast': excluded_f10} if excluded_f10 else {},
             'max': {'events': len(case['events']), 'sends': len(r_list)}, 'sample': {'case': case, 'reference_sends': len(r_list)}}
